@@ -223,13 +223,17 @@ func (s *Server) closeSessions() {
 	}
 }
 
-func (s *Server) conn() *coapNet.UDPConn {
+// conn returns the connection the server serves; it waits for the server to start serving, at most until ctx
+// is done.
+func (s *Server) conn(ctx context.Context) *coapNet.UDPConn {
 	s.listenMutex.Lock()
 	serverStartedChan := s.serverStartedChan
 	s.listenMutex.Unlock()
 	select {
 	case <-serverStartedChan:
 	case <-s.ctx.Done():
+	case <-ctx.Done():
+		return nil
 	}
 	s.listenMutex.Lock()
 	defer s.listenMutex.Unlock()
